@@ -1,5 +1,6 @@
 """C20 — serde_2026 round-trips, is total, and is recognisable."""
 import itertools
+import subprocess
 import vlib, gen, gen_dag, gen_s2026
 
 LEVEL = "other"
@@ -160,3 +161,22 @@ def run(ctx):
         if not o.startswith("ok ") or "ACCEPT" in o:
             ctx.violation("a classic / back-reference decoder accepts a blob that starts with the 2026 magic prefix (or failed abnormally): " + o[:200],
                           {"case": l, "family": "s2026", "impl": o})
+    alloc_probe(ctx)
+
+
+def alloc_probe(ctx):
+    """Directed observation, NOT part of the verdict: an 18-byte blob that declares one atom of 2^40
+    bytes, decoded with max_atom_len = 2^63. The decoder's buf.resize(length) is bounded by
+    max_atom_len only (C20_alloc_bounded), so the process asks for 1 TiB. Run in its own process under
+    an address-space limit so that the outcome (abort vs. error return) is recorded without risk."""
+    blob = gen_s2026.MAGIC + gen_s2026.wvar(1) + gen_s2026.wvar(2**40) + b"abc" + gen_s2026.wvar(1) + gen_s2026.wvar(2)
+    case = "de 1 %d %s" % (2**63, blob.hex())
+    try:
+        p = subprocess.run(["sh", "-c", "ulimit -v 4000000; exec %s s2026" % vlib.harness_bin()],
+                           input=case + "\n", capture_output=True, text=True, timeout=120)
+        obs = {"case": case, "exit_status": p.returncode, "stdout": p.stdout.strip()[:200], "stderr": p.stderr.strip()[-200:]}
+    except Exception as e:  # noqa
+        obs = {"case": case, "error": repr(e)}
+    ctx.extra_cov["alloc_probe_max_atom_len_2^63"] = obs
+    ctx.notes.append("directed probe outside the verdict: declared atom length 2^40 with max_atom_len 2^63 under ulimit -v 4 GB -> exit status %s (%s)"
+                     % (obs.get("exit_status"), (obs.get("stdout") or obs.get("stderr") or "")[:120]))
